@@ -309,6 +309,53 @@ func runC19(c *Ctx) {
 			}
 		})
 	}
+	// the pooled pair (buffer, TextHandler writing into it) is wired once, in
+	// the constructor; re-pointing either field afterwards detaches the text
+	// handler from the buffer Handle reads the line from
+	c.L.Floor("C19.pool.pair-fixed", 2)
+	nctor := 0
+	for _, fn := range c.P.Funcs("logutil/slogutil") {
+		core.EachInstr(fn, func(in ssa.Instruction) {
+			st, ok := in.(*ssa.Store)
+			if !ok {
+				return
+			}
+			fa, ok := st.Addr.(*ssa.FieldAddr)
+			if !ok || core.NamedOf(fa.X.Type()) != "bufferedTextHandler" {
+				return
+			}
+			name := core.FieldName(fa)
+			if fn.Name() != "newBufferedTextHandler" {
+				c.check(false, "C19.pool.pair-fixed", fn, "store to bufferedTextHandler."+name+" outside the constructor", st,
+					"the text handler keeps writing to the buffer it was built over; a replaced buffer stays empty and Handle reads an empty line")
+				return
+			}
+			nctor++
+			switch name {
+			case "handler":
+				okH := false
+				if call, ok := st.Val.(*ssa.Call); ok && core.CalleeName(&call.Call) == "log/slog.NewTextHandler" {
+					w := core.Unwrap(call.Call.Args[0])
+					// the same *bytes.Buffer that is stored in .buffer
+					for _, r := range core.Refs(fa.X) {
+						if fb, ok := r.(*ssa.FieldAddr); ok && core.FieldName(fb) == "buffer" {
+							for _, rr := range core.Refs(fb) {
+								if sb, ok := rr.(*ssa.Store); ok && sb.Val == w {
+									okH = true
+								}
+							}
+						}
+					}
+				}
+				c.check(okH, "C19.pool.pair-fixed", fn, "handler = slog.NewTextHandler(<the value stored in .buffer>, opts)", st, "the line Handle reads is the line the text handler wrote")
+			case "buffer":
+				c.check(true, "C19.pool.pair-fixed", fn, "buffer set in the constructor", st, "wired once")
+			}
+		})
+	}
+	if nctor == 0 {
+		c.undecided("C19.pool.pair-fixed", nil, "constructor of bufferedTextHandler", nil, "no field initialisation found in newBufferedTextHandler")
+	}
 	// ---- R6 ----
 	if mk != nil {
 		lvl := mk.Params[0]
